@@ -19,7 +19,7 @@ def finite(x):
 
 class C03(Check):
     pid = "C03"
-    lean_modules = ["MTProps.C03", "MTProps.CodeRun"]
+    lean_modules = ["MTProps.C03", "MTProps.CodeRun", "MTProps.CodeMain"]
 
     def body(self):
         rng = self.rng
@@ -385,7 +385,7 @@ def solver_reuse_stage(self, key):
 
 class C07(Check):
     pid = "C07"
-    lean_modules = ["MTProps.C07", "MTProps.CodeRun"]
+    lean_modules = ["MTProps.C07", "MTProps.CodeRun", "MTProps.CodeMain"]
 
     def body(self):
         rng = self.rng
@@ -763,7 +763,7 @@ class C11(Check):
 
 class C12(Check):
     pid = "C12"
-    lean_modules = ["MTProps.C12", "MTProps.CodeGraph"]
+    lean_modules = ["MTProps.C12", "MTProps.CodeGraph", "MTProps.CodeMain"]
 
     def body(self):
         rng = self.rng
@@ -868,7 +868,7 @@ C12.cli_relabel = _c12_cli_relabel
 
 class C15(Check):
     pid = "C15"
-    lean_modules = ["MTProps.C15"]
+    lean_modules = ["MTProps.C15", "MTProps.CodeMain"]
 
     def body(self):
         rng = self.rng
